@@ -265,7 +265,7 @@ def twin(ctx, case):
 
 def obligations(tier):
     import itertools
-    kinds = [2, 3, '--run', '--gdb', ''] if tier == 'quick' else [1, 2, 3, 4, 5, '--run', '--gdb', '', '-g']
+    kinds = [2, 3, 4, '--run', '--gdb', ''] if tier == 'quick' else [1, 2, 3, 4, 5, '--run', '--gdb', '', '-g']
     n = 3 if tier == 'quick' else 3
     cases = []
     for k in range(0, n + 1):
